@@ -168,8 +168,10 @@ WriteNum(p, isT, k, n) ==
   IF ~c.off THEN W(p, A_ANY, <<>>)
   ELSE IF n > 8 THEN W(p, A_MAPLEN, <<>>)
   ELSE IF n > Len(c.m) THEN W(p, A_MAP, <<>>)                   \* entries that do not exist in the dictionary
+  \* every counted entry must name an existing, mappable object with the matching access right, and the sum may not
+  \* exceed 8 bytes; when both rules are broken at once either abort code (0604 0041h / 0604 0042h) is a correct refusal
+  ELSE IF SumBytes(c.m, n) > 8 /\ (\E i \in 1..n : ~EntryOK(isT, c.m[i])) THEN W(p, <<-1, 0, 4, 6>>, <<>>)
   ELSE IF SumBytes(c.m, n) > 8 THEN W(p, A_MAPLEN, <<>>)
-  \* every counted entry must name an existing, mappable object with the matching access right
   ELSE IF \E i \in 1..n : ~EntryOK(isT, c.m[i]) THEN W(p, A_MAP, <<>>)
   ELSE W(IF isT THEN [p EXCEPT !.tc[k].n = n] ELSE [p EXCEPT !.rc[k].n = n], <<>>, <<>>)
 WriteMap(p, isT, k, i, m) ==
